@@ -280,8 +280,11 @@ func igGenerate(r *hx.Rand, p igProfile) (*igSchema, error) {
 				rep = " repeatable"
 			}
 			locs := []string{"FIELD_DEFINITION"}
-			for _, l := range []string{"OBJECT", "ENUM_VALUE", "QUERY", "FIELD", "ARGUMENT_DEFINITION"} {
-				if r.Chance(1, 3) {
+			// every location of the specification can occur (executable and type-system ones)
+			for _, l := range []string{"OBJECT", "ENUM_VALUE", "QUERY", "FIELD", "ARGUMENT_DEFINITION", "MUTATION", "SUBSCRIPTION",
+				"FRAGMENT_DEFINITION", "FRAGMENT_SPREAD", "INLINE_FRAGMENT", "VARIABLE_DEFINITION", "SCHEMA", "SCALAR", "INTERFACE",
+				"UNION", "ENUM", "INPUT_OBJECT", "INPUT_FIELD_DEFINITION"} {
+				if r.Chance(1, 4) {
 					locs = append(locs, l)
 				}
 			}
